@@ -107,6 +107,10 @@ impl FileSystem for OverlayFS {
                 }
             }
         }
+        if path.is_empty() {
+            // the deletion markers are bookkeeping, not entries of the overlay
+            entries.remove(".whiteout");
+        }
         Ok(Box::new(entries.into_iter()))
     }
 
